@@ -1,11 +1,16 @@
-"""C17 — Duden list, text, number and sorting functions meet their specification.
+"""C17 — Duden list, text, character, number, statistics and sorting functions meet their specification.
 
 Theorems: lean/Props/C17.lean about DDP.Duden (the documented meaning as sequence operations:
 lengths, inverses, involution, sum laws, sorting = ordered permutation, split/join inverse, trim,
-padding, comparison).  Tie: for ~40 functions of Duden/Listen, Duden/Texte and Duden/Sortierung,
-in their value and Referenz variants, DDP programs call the real library on generated arguments
-(boundary lengths 0/1/2, duplicates, multi-byte characters) and print result and arguments; the
-output is compared with `ddpmodel duden`."""
+padding, comparison; second part: range insertion, descending lists, removing letters, letters of a
+text, Levenshtein, splitting at a set, UTF-8 round trip, letter classes and case mapping, rounding,
+max/min/clamp of Kommazahlen, factorial, divisors, highest/lowest, frequencies, modal values).
+Tie: for ~300 call forms of Duden/Listen (Zahlen, Text, Buchstaben, Kommazahlen and Wahrheitswert
+lists), Texte, Sortierung, Zeichen, Zahlen, Mathe and Statistik, in their value and Referenz variants,
+DDP programs call the real library on generated arguments (boundary lengths 0/1/2, duplicates,
+multi-byte characters, every ASCII character) and print result and arguments; the output is compared
+with `ddpmodel duden`.  Kommazahl results are judged only where they are exactly representable.
+Library functions that disagree with their documentation: C17_FINDINGS.md."""
 from collections import Counter
 
 from .. import leanproj, pipeline, corr, evalcorr
@@ -13,6 +18,8 @@ from ..common import Rng, seed
 from ..corr import build_model
 
 HEAD = 'Binde "Duden/Ausgabe" ein.\nBinde "Duden/Listen" ein.\nBinde "Duden/Texte" ein.\nBinde "Duden/Sortierung" ein.\nBinde "Duden/Mathe" ein.\n\n'
+HEAD_B = 'Binde "Duden/Ausgabe" ein.\nBinde "Duden/Listen" ein.\nBinde "Duden/Sortierung" ein.\nBinde "Duden/Mathe" ein.\nBinde "Duden/Statistik" ein.\nBinde "Duden/Zahlen" ein.\nBinde "Duden/Zeichen" ein.\n\n'
+HEADS = {"A": HEAD, "B": HEAD_B}
 CHARS = [0x61, 0x62, 0x20, 0x2C, 0xE4, 0x20AC, 0x1F600, 0x41, 0x5A, 0x7A]
 
 
@@ -91,13 +98,531 @@ def gen_text(rng):
     return [CHARS[rng.below(len(CHARS))] for _ in range(n)]
 
 
+# ------------------------------------------------------------------------------------------------
+# second part: remaining functions of Listen/Texte, Zeichen, Zahlen, Mathe, Statistik, Sortierung
+
+def p_bool(v):
+    """a Wahrheitswert is observed through a branch (printing a negated call result directly shows the compiler's
+    unnormalised i1 instead of the library's answer, see C17_FINDINGS.md)"""
+    return "Wenn %s, Schreibe \"wahr\" auf eine Zeile.\nSonst Schreibe \"falsch\" auf eine Zeile.\n" % v
+
+
+def lit_komma(k):
+    """a Kommazahl literal for k eighths"""
+    txt = ("%.3f" % (abs(k) / 8.0)).rstrip("0")
+    if txt.endswith("."):
+        txt += "0"
+    txt = txt.replace(".", ",")
+    return txt if k >= 0 else "(-%s)" % txt
+
+
+def fmt_komma(k):
+    """what `Schreibe` prints for k eighths (the runtime formats with %.16g)"""
+    return "%.16g" % (k / 8.0)
+
+
+def lit_bool(v):
+    return "wahr" if v else "falsch"
+
+
+class Kind:
+    """an element type of the generic list functions: pool of values, their numbering for the model
+    (injective; order preserving for numbers), literal and printed form"""
+
+    def __init__(self, key, listtype, loop, pool, lit, fmt, code=None, val=None):
+        self.key, self.listtype, self.loop, self.pool, self.lit, self.fmt = key, listtype, loop, pool, lit, fmt
+        self.code = code or (lambda v: v)
+        self.val = val or (lambda c: c)
+
+    def lit_list(self, vs):
+        return "eine leere %s" % self.listtype if not vs else "eine Liste, die aus %s besteht" % ", ".join(self.lit(v) for v in vs)
+
+    def enc(self, vs):
+        return enc_ints([self.code(v) for v in vs])
+
+    def p_list(self, var):
+        return "Schreibe \"[\".\n%s %s, mache:\n\tSchreibe el.\n\tSchreibe \";\".\nSchreibe \"]\" auf eine Zeile.\n" % (self.loop, var)
+
+    def show(self, enc):
+        return "[" + "".join(self.fmt(self.val(int(x))) + ";" for x in ([] if enc == "-" else enc.split(","))) + "]\n"
+
+    def gen(self, rng):
+        n = [0, 1, 2, 3, 5][rng.below(5)]
+        return [self.pool[rng.below(len(self.pool))] for _ in range(n)]
+
+
+TPOOL = [[], [0x61], [0xE4, 0x20AC], [0x62, 0x20, 0x63], [0x1F600], [0x61, 0x61]]
+KINDS = {
+    "Z": Kind("Z", "Zahlen Liste", "Für jede Zahl el in", [0, 1, -1, 2, 2, 7, -7, 100, 2 ** 40], lit_int, str),
+    "T": Kind("T", "Text Liste", "Für jeden Text el in", TPOOL, lit_text, lambda t: "".join(chr(c) for c in t),
+              code=lambda v: TPOOL.index(v), val=lambda c: TPOOL[c]),
+    "B": Kind("B", "Buchstaben Liste", "Für jeden Buchstaben el in", [0x61, 0x62, 0xE4, 0x20AC, 0x1F600, 0x20], lit_char, chr),
+    "K": Kind("K", "Kommazahlen Liste", "Für jede Kommazahl el in", [-12, 0, 2, 4, 12, 20, 8, 2], lit_komma, fmt_komma),
+    "W": Kind("W", "Wahrheitswert Liste", "Für jeden Wahrheitswert el in", [0, 1], lit_bool, lit_bool),
+}
+
+
+def show_raw(x):
+    return x + "\n"
+
+
+def show_char(x):
+    return chr(int(x)) + "\n"
+
+
+def show_rats(x):
+    return "[" + "".join(v + ";" for v in ([] if x == "-" else x.split(","))) + "]\n"
+
+
+def p_klist(v):
+    return KINDS["K"].p_list(v)
+
+
+def generic_list_cases(rng, add, kind, only_new=False):
+    """the generic functions of Duden/Listen for one element type, Referenz and value forms"""
+    k = kind
+    l, o = k.gen(rng), k.gen(rng)
+    e = k.pool[rng.below(len(k.pool))]
+    L, O, E = k.lit_list(l), k.lit_list(o), k.lit(e)
+    el, eo, ee = k.enc(l), k.enc(o), k.code(e)
+    decl = "Die %s l ist %s.\nDie %s o ist %s.\n" % (k.listtype, L, k.listtype, O)
+    P, S = k.p_list, k.show
+    tag = "-" + k.key
+    same_l, same_o = S(el), S(eo)
+    add("leere" + tag, "duden leere %s" % el, decl + "Leere l.\n" + P("l") + p_bool("l leer ist"), lambda x: S(x) + "wahr\n")
+    add("voranstellenListe" + tag, "duden voranstellenListe %s %s" % (el, eo), decl + "Stelle o vor l.\n" + P("l") + P("o"), S, same_o)
+    add("voranstellenListe-lit" + tag, "duden voranstellenListe %s %s" % (el, eo), decl + "Stelle (%s) vor l.\n" % O + P("l"), S)
+    add("enthaelt-value" + tag, "duden enthaelt %s %d" % (el, ee), decl + p_bool("(%s) %s enthält" % (L, E)), show_bool)
+    add("leer-value" + tag, "duden leer %s" % el, decl + p_bool("(%s) leer ist" % L), show_bool)
+    add("gespiegelt-value" + tag, "duden gespiegelt %s" % el, "Die %s r ist (%s) gespiegelt.\n" % (k.listtype, L) + P("r"), S)
+    if l:
+        i = 1 + rng.below(len(l))
+        add("einfuegenBereich" + tag, "duden einfuegenBereich %s %d %s" % (el, i, eo),
+            decl + "Setze die Elemente in o an die Stelle %d von l.\n" % i + P("l") + P("o"), S, same_o)
+        add("einfuegenBereich-selbst" + tag, "duden einfuegenBereich %s %d %s" % (el, i, el),
+            decl + "Setze die Elemente in l an die Stelle %d von l.\n" % i + P("l"), S)
+        n = 1 + rng.below(len(l))
+        add("ersteN-value" + tag, "duden ersteN %s %d" % (el, n), "Die %s r ist die ersten %d Elemente von (%s).\n" % (k.listtype, n, L) + P("r"), S)
+        add("letzteN-value" + tag, "duden letzteN %s %d" % (el, n), "Die %s r ist die letzten %d Elemente von (%s).\n" % (k.listtype, n, L) + P("r"), S)
+    if only_new:
+        return
+    add("anfuegen" + tag, "duden anfuegen %s %d" % (el, ee), decl + "Füge %s an l an.\n" % E + P("l"), S)
+    add("anfuegenListe" + tag, "duden anfuegenListe %s %s" % (el, eo), decl + "Füge o an l an.\n" + P("l") + P("o"), S, same_o)
+    add("anfuegenListe-selbst" + tag, "duden anfuegenListe %s %s" % (el, el), decl + "Füge l an l an.\n" + P("l"), S)
+    add("voranstellen" + tag, "duden voranstellen %s %d" % (el, ee), decl + "Stelle %s vor l.\n" % E + P("l"), S)
+    add("fuelle" + tag, "duden fuelle %s %d" % (el, ee), decl + "Fülle l mit %s.\n" % E + P("l"), S)
+    add("indexVon" + tag, "duden indexVon %s %d" % (el, ee), decl + p_scalar("der Index von %s in l" % E) + P("l"), show_raw, same_l)
+    add("indexVon-value" + tag, "duden indexVon %s %d" % (el, ee), decl + p_scalar("der Index von %s in (%s)" % (E, L)), show_raw)
+    add("enthaelt" + tag, "duden enthaelt %s %d" % (el, ee), decl + p_bool("l %s enthält" % E) + p_bool("l %s nicht enthält" % E),
+        lambda x: show_bool(x) + show_bool("0" if x == "1" else "1"))
+    add("leer" + tag, "duden leer %s" % el, decl + p_bool("l leer ist") + p_bool("l nicht leer ist"), lambda x: show_bool(x) + show_bool("0" if x == "1" else "1"))
+    add("gespiegelt" + tag, "duden gespiegelt %s" % el, decl + "Die %s r ist l gespiegelt.\n" % k.listtype + P("r") + P("l"), S, same_l)
+    if l:
+        i = 1 + rng.below(len(l))
+        add("einfuegen" + tag, "duden einfuegen %s %d %d" % (el, i, ee), decl + "Setze %s an die Stelle %d von l.\n" % (E, i) + P("l"), S)
+        add("loesche" + tag, "duden loesche %s %d" % (el, i), decl + "Lösche das Element an der Stelle %d aus l.\n" % i + P("l"), S)
+        a = 1 + rng.below(len(l))
+        b = a + rng.below(len(l) - a + 1)
+        add("loescheBereich" + tag, "duden loescheBereich %s %d %d" % (el, a, b), decl + "Lösche alle Elemente von %d bis %d aus l.\n" % (a, b) + P("l"), S)
+        n = 1 + rng.below(len(l))
+        add("ersteN" + tag, "duden ersteN %s %d" % (el, n), decl + "Die %s r ist die ersten %d Elemente von l.\n" % (k.listtype, n) + P("r") + P("l"), S, same_l)
+        add("letzteN" + tag, "duden letzteN %s %d" % (el, n), decl + "Die %s r ist die letzten %d Elemente von l.\n" % (k.listtype, n) + P("r") + P("l"), S, same_l)
+    if k.key == "K":
+        add("sortiert-K", "duden sortiert %s" % el, decl + "Die Kommazahlen Liste r ist l sortiert.\n" + P("r") + P("l"), S, same_l)
+        add("sortiere-ref-K", "duden sortiert %s" % el, decl + "Sortiere l.\n" + P("l"), S)
+        pos = [abs(v) + 2 for v in l[:4]]
+        dk = "Die Kommazahlen Liste l ist %s.\n" % k.lit_list(pos)
+        add("summeK-Listen", "duden summeK %s" % k.enc(l), decl + p_scalar("die Summe aller Kommazahlen in l"), show_raw)
+        add("produktK-Listen", "duden produktK %s" % k.enc(pos), dk + p_scalar("das Produkt aller Kommazahlen in l"), show_raw)
+
+
+def text_cases(rng, add):
+    t, u = gen_text(rng), gen_text(rng)[:2]
+    c = CHARS[rng.below(len(CHARS))]
+    if t and rng.below(2):
+        t = [c] * rng.below(3) + t + [c] * rng.below(3)
+    T, U, C = lit_text(t), lit_text(u), lit_char(c)
+    et, eu = enc_ints(t), enc_ints(u)
+    td = "Der Text t ist %s.\nDer Text u ist %s.\nDer Buchstabe c ist %s.\n" % (T, U, C)
+    same_t, same_u = show_text(et), show_text(eu)
+    wr = "Schreibe t auf eine Zeile.\n"
+    if t:
+        add("ersterBuchstabe", "duden ersterBuchstabe %s" % et, td + p_scalar("der erste Buchstabe von t"), show_char)
+        add("letzterBuchstabe", "duden letzterBuchstabe %s" % et, td + p_scalar("der letzte Buchstabe von t"), show_char)
+        n = 1 + rng.below(len(t))
+        add("nterBuchstabe", "duden nterBuchstabe %d %s" % (n, et), td + p_scalar("der %d. Buchstabe von t" % n) + p_scalar("der %d Buchstabe von t" % n),
+            lambda x: show_char(x) * 2)
+    for n in sorted(set([0, 1, rng.below(len(t) + 1), len(t), len(t) + 2, -1])):
+        N = lit_int(n)
+        add("entferneVorne", "duden entferneVorne %s %d" % (et, n), td + "Schreibe (t mit den ersten %s Buchstaben entfernt) auf eine Zeile.\n" % N + wr, show_text, same_t)
+        add("entferneHinten", "duden entferneHinten %s %d" % (et, n), td + "Schreibe (t mit den letzten %s Buchstaben entfernt) auf eine Zeile.\n" % N + wr, show_text, same_t)
+        add("entferneVorne-ref", "duden entferneVorne %s %d" % (et, n), td + "Entferne %s Buchstaben am Anfang von t.\n" % N + wr, show_text)
+        add("entferneHinten-ref", "duden entferneHinten %s %d" % (et, n), td + "Entferne %s Buchstaben am Ende von t.\n" % N + wr, show_text)
+    add("trimEnde-ref", "duden trimEnde %s %d" % (et, c), td + "Entferne alle c nach t.\n" + wr, show_text)
+    add("beginntMitBuchstabe", "duden beginntMitBuchstabe %s %d" % (et, c), td + p_bool("c am Anfang von t steht") + p_bool("c nicht am Anfang von t steht"),
+        lambda x: show_bool(x) + show_bool("0" if x == "1" else "1"))
+    add("endetMitBuchstabe", "duden endetMitBuchstabe %s %d" % (et, c), td + p_bool("c am Ende von t steht"), show_bool)
+    if t:
+        # counting single letters as subtexts is where the non-overlapping count is the plain count
+        add("anzahlNichtUeberlappend-1", "duden anzahlNichtUeberlappend %s %d" % (et, c),
+            td + "Der Text v ist c als Text.\n" + p_scalar("die Anzahl der nicht überlappenden Subtexte v in t"), show_raw)
+    add("textAnfuegen", "duden textAnfuegen %s %s" % (et, eu), td + "Füge u an t an.\n" + wr + "Schreibe u auf eine Zeile.\n", show_text, same_u)
+    add("textAnfuegen-selbst", "duden textAnfuegen %s %s" % (et, et), td + "Füge t an t an.\n" + wr, show_text)
+    add("buchstabeAnfuegen", "duden textAnfuegen %s %d" % (et, c), td + "Füge c an t an.\n" + wr, show_text)
+    add("textVoranstellen", "duden textVoranstellen %s %s" % (et, eu), td + "Stelle u vor t.\n" + wr + "Schreibe u auf eine Zeile.\n", show_text, same_u)
+    add("buchstabeVoranstellen", "duden textVoranstellen %s %d" % (et, c), td + "Stelle c vor t.\n" + wr, show_text)
+    add("textLeeren", "duden leere %s" % et, td + "Leere t.\n" + wr, show_text)
+    add("fuelleText", "duden fuelleText %s %d" % (et, c), td + "Fülle t mit c.\n" + wr, show_text)
+    B = KINDS["B"]
+    add("buchstaben-ref", "duden buchstaben %s" % et, td + "Die Buchstaben Liste r ist die Buchstaben in t.\n" + B.p_list("r") + wr, B.show, same_t)
+    add("buchstaben-value", "duden buchstaben %s" % et, "Die Buchstaben Liste r ist die Buchstaben in %s.\n" % T + B.p_list("r"), B.show)
+    add("buchstabenTexte-ref", "duden buchstabenTexte %s" % et, td + "Die Text Liste r ist die Buchstaben in t als Text Liste.\n" + p_textlist("r") + wr, show_textlist, same_t)
+    add("buchstabenTexte-value", "duden buchstabenTexte %s" % et, "Die Text Liste r ist die Buchstaben in %s als Text Liste.\n" % T + p_textlist("r"), show_textlist)
+    add("indexVonBuchstabe-ref", "duden indexVonBuchstabe %s %d" % (et, c), td + p_scalar("der Index von c in t") + wr, show_raw, same_t)
+    add("indexVonBuchstabe-value", "duden indexVonBuchstabe %s %d" % (et, c), td + p_scalar("der Index von c in %s" % T), show_raw)
+    add("textLeer-ref", "duden textLeer %s" % et, td + p_bool("t leer ist") + p_bool("t nicht leer ist"), lambda x: show_bool(x) + show_bool("0" if x == "1" else "1"))
+    add("textLeer-value", "duden textLeer %s" % et, p_bool("%s leer ist" % T), show_bool)
+    # case mapping on ASCII and the German letters (ß has no capital letter: not judged for `groß`)
+    de = [x for x in t if x < 128] + [[0xE4, 0xF6, 0xFC, 0xC4, 0xD6, 0xDC][rng.below(6)] for _ in range(rng.below(3))]
+    de = rng.shuffle(de)
+    dd = "Der Text t ist %s.\n" % lit_text(de)
+    ed = enc_ints(de)
+    add("grossD", "duden grossD %s" % ed, dd + "Schreibe (t groß geschrieben) auf eine Zeile.\n" + wr, show_text, show_text(ed))
+    add("grossD-ref", "duden grossD %s" % ed, dd + "Schreibe t groß.\n" + wr, show_text)
+    dk = de + [0xDF] * rng.below(2)
+    ek = enc_ints(dk)
+    add("kleinD", "duden kleinD %s" % ek, "Der Text t ist %s.\n" % lit_text(dk) + "Schreibe (t klein geschrieben) auf eine Zeile.\n" + wr, show_text, show_text(ek))
+    # joining other lists
+    zl = gen_list(rng)
+    add("verbindenZahl", "duden verbindenZahl %s %d" % (enc_ints(zl), c), "Die Zahlen Liste zl ist %s.\nDer Buchstabe c ist %s.\n" % (lit_list(zl), C) +
+        "Schreibe (zl mit dem Trennzeichen c zum Text verbunden) auf eine Zeile.\n" + p_list("zl"), show_text, show_list(enc_ints(zl)))
+    bl = B.gen(rng)
+    add("verbindenBuchstabe", "duden verbindenBuchstabe %s %d" % (enc_ints(bl), c), "Die Buchstaben Liste bl ist %s.\nDer Buchstabe c ist %s.\n" % (B.lit_list(bl), C) +
+        "Schreibe (bl mit dem Trennzeichen c zum Text verbunden) auf eine Zeile.\n", show_text)
+    W = KINDS["W"]
+    wl = W.gen(rng)
+    add("verbindenWahr", "duden verbindenWahr %s %d" % (enc_ints(wl), c), "Die Wahrheitswert Liste wl ist %s.\nDer Buchstabe c ist %s.\n" % (W.lit_list(wl), C) +
+        "Schreibe (wl mit dem Trennzeichen c zum Text verbunden) auf eine Zeile.\n", show_text)
+    kl = KINDS["K"].gen(rng)
+    kts = [[ord(x) for x in fmt_komma(v)] for v in kl]
+    add("verbindenKommazahl", "duden verbinden %s %d" % (enc_texts(kts), c), "Die Kommazahlen Liste kl ist %s.\nDer Buchstabe c ist %s.\n" % (KINDS["K"].lit_list(kl), C) +
+        "Schreibe (kl mit dem Trennzeichen c zum Text verbunden) auf eine Zeile.\n", show_text)
+    add("aneinandergehaengt-ref", "duden aneinandergehaengt %s" % enc_ints(bl), "Die Buchstaben Liste bl ist %s.\n" % B.lit_list(bl) +
+        "Schreibe (bl aneinandergehängt) auf eine Zeile.\n" + B.p_list("bl"), show_text, B.show(enc_ints(bl)))
+    add("aneinandergehaengt-value", "duden aneinandergehaengt %s" % enc_ints(bl), "Schreibe ((%s) aneinandergehängt) auf eine Zeile.\n" % B.lit_list(bl), show_text)
+    ts = [gen_text(rng)[:3] for _ in range(rng.below(4))]
+    ts2 = [gen_text(rng)[:2] for _ in ts]
+    tsd = "Die Text Liste tl ist %s.\nDie Text Liste ul ist %s.\n" % (lit_textlist(ts), lit_textlist(ts2))
+    add("verketteTexte-ref", "duden verketteTexte %s" % enc_texts(ts), tsd + "Schreibe (alle Texte in tl aneinandergehängt) auf eine Zeile.\n" + p_textlist("tl"), show_text, show_textlist(enc_texts(ts)))
+    add("verketteTexte-value", "duden verketteTexte %s" % enc_texts(ts), "Schreibe (alle Texte in (%s) aneinandergehängt) auf eine Zeile.\n" % lit_textlist(ts), show_text)
+    add("elementweiseVerketten-ref", "duden elementweiseVerketten %s %s" % (enc_texts(ts), enc_texts(ts2)),
+        tsd + "Die Text Liste r ist jeden Text aus tl mit ul verkettet.\n" + p_textlist("r") + p_textlist("tl") + p_textlist("ul"), show_textlist,
+        show_textlist(enc_texts(ts)) + show_textlist(enc_texts(ts2)))
+    add("elementweiseVerketten-value", "duden elementweiseVerketten %s %s" % (enc_texts(ts), enc_texts(ts2)),
+        "Die Text Liste r ist jeden Text aus (%s) mit (%s) verkettet.\n" % (lit_textlist(ts), lit_textlist(ts2)) + p_textlist("r"), show_textlist)
+    # Levenshtein: a text against an edited copy, both directions
+    v = list(t)
+    for _ in range(rng.below(3)):
+        kind = rng.below(3)
+        if kind == 0 and v:
+            v[rng.below(len(v))] = CHARS[rng.below(len(CHARS))]
+        elif kind == 1 and v:
+            del v[rng.below(len(v))]
+        else:
+            v.insert(rng.below(len(v) + 1), CHARS[rng.below(len(CHARS))])
+    t6, v6 = t[:6], v[:6]
+    ld = "Der Text t ist %s.\nDer Text u ist %s.\n" % (lit_text(t6), lit_text(v6))
+    add("levenshtein", "duden levenshtein %s %s" % (enc_ints(t6), enc_ints(v6)), ld + p_scalar("die Levenshtein-Distanz zwischen t und u") + p_scalar("wie ähnlich u und t sind"),
+        lambda x: show_raw(x) * 2)
+    # splitting at a set of letters
+    m = [CHARS[rng.below(len(CHARS))] for _ in range(rng.below(3))] + [c] * rng.below(2)
+    em = enc_ints(m)
+    md = td + "Die Buchstaben Liste m ist %s.\n" % B.lit_list(m)
+    add("spalteMenge-ref-ref", "duden spalteMenge %s %s" % (et, em), md + "Die Text Liste r ist t anhand der Spaltmenge m gespalten.\n" + p_textlist("r") + wr + B.p_list("m"),
+        show_textlist, same_t + B.show(em))
+    add("spalteMenge-value-ref", "duden spalteMenge %s %s" % (et, em), md + "Die Text Liste r ist %s anhand der Spaltmenge m gespalten.\n" % T + p_textlist("r"), show_textlist)
+    add("spalteMenge-value-value", "duden spalteMenge %s %s" % (et, em), "Die Text Liste r ist %s anhand der Spaltmenge (%s) gespalten.\n" % (T, B.lit_list(m)) + p_textlist("r"), show_textlist)
+    add("spalteMenge-text", "duden spalteMenge %s %s" % (et, em), "Die Text Liste r ist %s anhand der Spaltmenge %s gespalten.\n" % (T, lit_text(m)) + p_textlist("r"), show_textlist)
+    # words
+    blanks = [0x20, 0x20, 0x0A, 0x09, 0x0D]
+    w = []
+    for _ in range(rng.below(4)):
+        w += [blanks[rng.below(len(blanks))] for _ in range(rng.below(3))] + [x for x in gen_text(rng)[:3] if x not in (0x20,)]
+    w += [blanks[rng.below(len(blanks))] for _ in range(rng.below(2))]
+
+    def lit_ws(cs):
+        return '"%s"' % "".join({0x0A: "\\n", 0x09: "\\t", 0x0D: "\\r", 0x22: '\\"', 0x5C: "\\\\"}.get(x, chr(x)) for x in cs)
+    ew = enc_ints(w)
+    add("worte-ref", "duden worte %s" % ew, "Der Text t ist %s.\n" % lit_ws(w) + "Die Text Liste r ist die Worte in t.\n" + p_textlist("r") + p_bool("t gleich %s ist" % lit_ws(w)),
+        show_textlist, "wahr\n")
+    add("worte-value", "duden worte %s" % ew, "Die Text Liste r ist %s in Worte unterteilt.\n" % lit_ws(w) + p_textlist("r"), show_textlist)
+    # bytes
+    Y = "Schreibe \"[\".\nFür jeden Byte el in r, mache:\n\tSchreibe (el als Zahl).\n\tSchreibe \",\".\nSchreibe \"]\" auf eine Zeile.\n"
+    add("bytes-ref", "duden bytes %s" % et, td + "Die Byte Liste r ist die Bytes von t.\n" + Y + wr, show_list, same_t)
+    add("bytes-value", "duden bytes %s" % et, "Die Byte Liste r ist die Bytes von %s.\n" % T + Y, show_list)
+    by = list("".join(chr(x) for x in t).encode("utf-8"))
+    bylit = "eine leere Byte Liste" if not by else "eine Liste, die aus %s besteht" % ", ".join("(%d als Byte)" % x for x in by)
+    add("vonBytes-ref", "duden vonBytes %s" % enc_ints(by), "Die Byte Liste r ist %s.\nSchreibe (die Bytes r als Text) auf eine Zeile.\n" % bylit + Y, show_text, show_list(enc_ints(by)))
+    add("vonBytes-value", "duden vonBytes %s" % enc_ints(by), "Schreibe (die Bytes (%s) als Text) auf eine Zeile.\n" % bylit, show_text)
+    # searching with a small alphabet (many partial matches)
+    n = 3 + rng.below(7)
+    t2 = [[0x61, 0x62, 0xE4][rng.below(3) if rng.below(4) == 0 else rng.below(2)] for _ in range(n)]
+    u2 = [[0x61, 0x62, 0xE4][rng.below(3) if rng.below(4) == 0 else rng.below(2)] for _ in range(1 + rng.below(4))]
+    if rng.below(2):
+        st = rng.below(len(t2))
+        u2 = t2[st:st + 1 + rng.below(4)]
+    d2 = "Der Text t ist %s.\nDer Text u ist %s.\n" % (lit_text(t2), lit_text(u2))
+    e2 = (enc_ints(t2), enc_ints(u2))
+    add("indexVonText-ab", "duden indexVonText %s %s" % e2, d2 + p_scalar("der Index von u in t"), show_raw)
+    add("enthaeltText-ab", "duden enthaeltText %s %s" % e2, d2 + p_bool("t u enthält"), show_bool)
+    add("anzahlText-ab", "duden anzahlText %s %s" % e2, d2 + p_scalar("die Anzahl der Subtexte u in t"), show_raw)
+    add("beginntMit-ab", "duden beginntMit %s %s" % e2, d2 + p_bool("u am Anfang von t steht"), show_bool)
+    add("endetMit-ab", "duden endetMit %s %s" % e2, d2 + p_bool("u am Ende von t steht"), show_bool)
+    add("finde-ab", "duden finde %s %s" % e2, d2 + "Die Zahlen Liste r ist alle Indizes vom Subtext u in t.\n" + p_list("r"), show_list)
+
+
+def number_cases(rng, add):
+    def addB(*a, **k):
+        add(*a, head="B", **k)
+    pool = [0, 1, -1, 2, 7, -7, 12, 18, 100, 360, 97, 2 ** 31]
+    a, b, d = pool[rng.below(len(pool))], pool[rng.below(len(pool))], pool[rng.below(len(pool))]
+    lo, hi = min(b, d), max(b, d)
+    nd = "Die Zahl a ist %s.\nDie Zahl lo ist %s.\nDie Zahl hi ist %s.\n" % (lit_int(a), lit_int(lo), lit_int(hi))
+    addB("clamp", "duden clamp %d %d %d" % (a, lo, hi), nd + p_scalar("a zwischen lo und hi"), show_raw)
+    kp = [-20, -12, -8, -4, -1, 0, 1, 2, 4, 8, 12, 20, 22, 44]
+    x, y, z = kp[rng.below(len(kp))], kp[rng.below(len(kp))], kp[rng.below(len(kp))]
+    kd = "Die Kommazahl x ist %s.\nDie Kommazahl y ist %s.\nDie Kommazahl z ist %s.\n" % (lit_komma(x), lit_komma(y), lit_komma(z))
+    addB("maxK", "duden maxK %d %d" % (x, y), kd + p_scalar("die größere Zahl von x und y"), show_raw)
+    addB("minK", "duden minK %d %d" % (x, y), kd + p_scalar("die kleinere Zahl von x und y"), show_raw)
+    addB("max3K", "duden max3K %d %d %d" % (x, y, z), kd + p_scalar("die größere Zahl von x, y und z"), show_raw)
+    addB("min3K", "duden min3K %d %d %d" % (x, y, z), kd + p_scalar("die kleinere Zahl von x, y und z"), show_raw)
+    klo, khi = min(y, z), max(y, z)
+    addB("clampK", "duden clampK %d %d %d" % (x, klo, khi), kd + p_scalar("x zwischen %s und %s" % (lit_komma(klo), lit_komma(khi))), show_raw)
+    addB("signK", "duden signK %d" % x, kd + p_scalar("das Vorzeichen von x"), show_raw)
+    addB("truncK", "duden truncK %d" % x, kd + p_scalar("x trunkiert"), show_raw)
+    addB("floorK", "duden floorK %d" % x, kd + p_scalar("x nach unten gerundet"), show_raw)
+    addB("ceilK", "duden ceilK %d" % x, kd + p_scalar("x nach oben gerundet"), show_raw)
+    for xe in (-12, -2, -8, 0, 16, 20):       # -1,5  -0,25  -1  0  2  2,5
+        kde = "Die Kommazahl x ist %s.\n" % lit_komma(xe)
+        addB("floorK-edge", "duden floorK %d" % xe, kde + p_scalar("x nach unten gerundet"), show_raw)
+        addB("ceilK-edge", "duden ceilK %d" % xe, kde + p_scalar("x nach oben gerundet"), show_raw)
+    if x % 8 != 4 and (x >= 0 or x < -4):
+        addB("rundenK-0", "duden rundenK %d 0" % x, kd + p_scalar("x auf 0 Stellen gerundet"), show_raw)
+    if x % 4 == 0 and (x >= 0 or x < -4):
+        n = 1 + rng.below(2)
+        addB("rundenK-n", "duden rundenK %d %d" % (x, n), kd + p_scalar("x auf %d Stellen gerundet" % n), show_raw)
+    addB("quadrat", "duden quadrat %d" % x, kd + p_scalar("x zum quadrat") + p_scalar("x"), show_raw, fmt_komma(x) + "\n")
+    addB("quadriere-ref", "duden quadrat %d" % x, kd + "Quadriere x.\n" + p_scalar("x"), show_raw)
+    addB("ganzeZahl", "duden ganzeZahl %d" % x, kd + p_bool("x eine ganze Zahl ist") + p_bool("x keine ganze Zahl ist"), lambda v: show_bool(v) + show_bool("0" if v == "1" else "1"))
+    addB("geradeZahl", "duden geradeZahl %d" % a, nd + p_bool("a eine gerade Zahl ist"), show_bool)
+    addB("geradeKommazahl", "duden geradeKommazahl %d" % x, kd + p_bool("x eine gerade Zahl ist"), show_bool)
+    f = rng.below(21)
+    addB("fakultaet", "duden fakultaet %d" % f, p_scalar("%d Fakultät" % f) + p_scalar("%d!" % f), lambda v: show_raw(v) * 2)
+    zt = [1, 2, 12, 97, 360, 1000, 49][rng.below(7)]
+    addB("teiler", "duden teiler %d" % zt, "Die Zahlen Liste r ist alle Teiler von %d.\nSortiere r.\n" % zt + p_list("r"), show_list)
+    ga, gb = abs(a) % 1000, abs(b) % 1000 + 1
+    for na, nb in ((12, -18), (-12, 18), (-12, -18), (-5, 0), (0, -5), (4, -6)):
+        addB("ggTZ-negative", "duden ggTZ %d %d" % (na, nb), p_scalar("der größte gemeinsame Teiler von %s und %s" % (lit_int(na), lit_int(nb))), show_raw)
+        if na and nb:
+            addB("kgVZ-negative", "duden kgVZ %d %d" % (na, nb), p_scalar("das kleinste gemeinsame Vielfache von %s und %s" % (lit_int(na), lit_int(nb))), show_raw)
+    addB("ggTZ", "duden ggTZ %d %d" % (ga, gb), p_scalar("der größte gemeinsame Teiler von %d und %d" % (ga, gb)), show_raw)
+    addB("ggTZ-0", "duden ggTZ %d %d" % (gb, 0), p_scalar("der größte gemeinsame Teiler von %d und 0" % gb), show_raw)
+    addB("kgVZ", "duden kgVZ %d %d" % (ga, gb), p_scalar("das kleinste gemeinsame Vielfache von %d und %d" % (ga, gb)), show_raw)
+    addB("million", "duden million %s" % a, nd + p_scalar("a Million"), show_raw)
+    addB("dutzend", "duden dutzend %s" % a, nd + p_scalar("a Dutzend"), show_raw)
+    names = {2: "Halbe", 3: "Drittel", 4: "Viertel", 5: "Fünftel", 6: "Sechstel", 7: "Siebtel", 8: "Achtel", 9: "Neuntel", 10: "Zehntel", 11: "Elftel", 12: "Zwölftel"}
+    small = [0, 1, -1, 3, 5, -7, 12, 100][rng.below(8)]
+    for dn in (2, 4, 8):
+        addB("bruch-%d" % dn, "duden bruch %d %d" % (small, dn), "Die Zahl a ist %s.\n" % lit_int(small) + p_scalar("a %s" % names[dn]), show_raw)
+    dn = [3, 5, 6, 7, 9, 10, 11, 12][rng.below(8)]
+    mult = dn * (rng.below(9) - 4)
+    addB("bruch-%d" % dn, "duden bruch %d %d" % (mult, dn), "Die Zahl a ist %s.\n" % lit_int(mult) + p_scalar("a %s" % names[dn]), show_raw)
+    hx = [rng.below(16) for _ in range(1 + rng.below(8))]
+    ht = [ord("0123456789abcdef"[v]) if rng.below(2) else ord("0123456789ABCDEF"[v]) for v in hx]
+    addB("hexZuZahl", "duden hexZuZahl %s" % enc_ints(ht), p_scalar("die Hexadezimalzahl %s" % lit_text(ht)), show_raw)
+    hz = [0, 1, 15, 16, 255, 4096, 2 ** 31, -1, -255, 48879, 2 ** 62 + 5][rng.below(11)]
+    addB("zahlZuHex", "duden zahlZuHex %d" % hz, p_scalar("%s in Hexadezimal" % lit_int(hz)), show_text)
+    if hz >= 0:
+        addB("hex-hin-zurueck", "duden leere -", p_scalar("die Hexadezimalzahl (%d in Hexadezimal)" % hz), lambda v: "%d\n" % hz)
+    ta, tb = pool[rng.below(len(pool))], pool[rng.below(len(pool))]
+    addB("tausche", "duden tausche %d %d" % (ta, tb), "Die Zahl a ist %s.\nDie Zahl b ist %s.\nTausche a und b.\nSchreibe a.\nSchreibe \",\".\nSchreibe b auf eine Zeile.\n" % (lit_int(ta), lit_int(tb)), show_raw)
+    K = KINDS["K"]
+    lt = K.gen(rng)
+    if len(lt) >= 2:
+        i1, i2 = 1 + rng.below(len(lt)), 1 + rng.below(len(lt))
+        want = list(lt)
+        want[i1 - 1], want[i2 - 1] = want[i2 - 1], want[i1 - 1]
+        addB("tausche-K", "duden leere -", "Die Kommazahlen Liste l ist %s.\nTausche (l an der Stelle %d) und (l an der Stelle %d).\n" % (K.lit_list(lt), i1, i2) + K.p_list("l"),
+             lambda v, want=want: K.show(K.enc(want)))
+    # lists of numbers
+    l1 = gen_list(rng)
+    l2 = [[1, 2, 4, 8, 2, 1][rng.below(6)] for _ in l1]
+    l1s = [v % 1000 for v in l1]
+    if l1:
+        dl = "Die Zahlen Liste l ist %s.\nDie Zahlen Liste o ist %s.\n" % (lit_list(l1s), lit_list(l2))
+        both = show_list(enc_ints(l1s)) + show_list(enc_ints(l2))
+        addB("elementweiseDifferenz", "duden elementweiseDifferenz %s %s" % (enc_ints(l1s), enc_ints(l2)),
+             dl + "Die Zahlen Liste r ist jedes Element aus l mit o subtrahiert.\n" + p_list("r") + p_list("l") + p_list("o"), show_list, both)
+        addB("elementweiseQuotient", "duden elementweiseQuotient %s %s" % (enc_ints(l1s), enc_ints(l2)),
+             dl + "Die Kommazahlen Liste r ist jedes Element aus l mit o dividiert.\n" + p_klist("r") + p_list("l") + p_list("o"), show_rats, both)
+    k1 = K.gen(rng)
+    k2 = [K.pool[rng.below(len(K.pool))] for _ in k1]
+    if k1:
+        dk = "Die Kommazahlen Liste l ist %s.\nDie Kommazahlen Liste o ist %s.\n" % (K.lit_list(k1), K.lit_list(k2))
+        ek = (enc_ints(k1), enc_ints(k2))
+        bothk = K.show(ek[0]) + K.show(ek[1])
+        addB("elementweiseSummeK", "duden elementweiseSummeK %s %s" % ek, dk + "Die Kommazahlen Liste r ist jede Kommazahl aus l mit o addiert.\n" + p_klist("r") + p_klist("l") + p_klist("o"), show_rats, bothk)
+        addB("elementweiseDifferenzK", "duden elementweiseDifferenzK %s %s" % ek, dk + "Die Kommazahlen Liste r ist jede Kommazahl aus l mit o subtrahiert.\n" + p_klist("r"), show_rats)
+        if all(v != 0 for v in k1 + k2):
+            addB("elementweiseProduktK", "duden elementweiseProduktK %s %s" % ek, dk + "Die Kommazahlen Liste r ist jede Kommazahl aus l mit o multipliziert.\n" + p_klist("r"), show_rats)
+    g1, g2 = 8 * rng.below(4), 8 * rng.below(7)
+    gn = [2, 3, 5][rng.below(3)]
+    addB("logspace", "duden logspace %d %d %d" % (g1, g2, gn),
+         "Die Kommazahlen Liste r ist eine logarithmische Kommazahlen Liste von %s bis %s mit %d Elementen.\n" % (lit_komma(g1), lit_komma(g2), gn) + p_klist("r"), show_rats)
+    a3 = rng.below(7) - 3
+    b3 = a3 - rng.below(6)
+    addB("absteigend", "duden absteigend %d %d" % (a3, b3), "Die Zahlen Liste r ist eine absteigende Zahlen Liste von %s bis %s.\n" % (lit_int(a3), lit_int(b3)) + p_list("r"), show_list)
+    ls, le, ln = kp[rng.below(len(kp))], kp[rng.below(len(kp))], [2, 3, 5, 9][rng.below(4)]
+    addB("linspace", "duden linspace %d %d %d" % (ls, le, ln),
+         "Die Kommazahlen Liste r ist eine lineare Kommazahlen Liste von %s bis %s mit %d Elementen.\n" % (lit_komma(ls), lit_komma(le), ln) + p_klist("r"), show_rats)
+    # statistics
+    zl = gen_list(rng)
+    if zl:
+        zd = "Die Zahlen Liste l ist %s.\n" % lit_list(zl)
+        same = show_list(enc_ints(zl))
+        addB("hoechsteZ", "duden hoechsteZ %s" % enc_ints(zl), zd + p_scalar("der höchste Wert aus l") + p_scalar("die größte Zahl in l") + p_list("l"), lambda v: show_raw(v) * 2, same)
+        addB("kleinsteZ", "duden kleinsteZ %s" % enc_ints(zl), zd + p_scalar("der kleinste Wert aus l") + p_scalar("die kleinste Zahl in l") + p_list("l"), lambda v: show_raw(v) * 2, same)
+    n = [1, 2, 3, 4, 4, 5, 8][rng.below(7)]
+    kpool = [-12, -4, 0, 4, 8, 8, 12, 20, 20, 36]
+    kl = [kpool[rng.below(len(kpool))] for _ in range(n)]
+    ks = sorted(kl)
+    xk = kpool[rng.below(len(kpool))]
+    yk = xk + 4 * rng.below(5)
+    ekl, eks = enc_ints(kl), enc_ints(ks)
+    sd = "Die Kommazahlen Liste l ist %s.\nDie Kommazahlen Liste s ist %s.\n" % (K.lit_list(kl), K.lit_list(ks))
+    same = K.show(ekl)
+    X, Y = lit_komma(xk), lit_komma(yk)
+    addB("hoechsteK", "duden hoechsteK %s" % ekl, sd + p_scalar("der höchste Wert aus l") + p_scalar("die größte Kommazahl in l") + K.p_list("l"), lambda v: show_raw(v) * 2, same)
+    addB("kleinsteK", "duden kleinsteK %s" % ekl, sd + p_scalar("der kleinste Wert aus l") + p_scalar("die kleinste Kommazahl in l"), lambda v: show_raw(v) * 2)
+    addB("zwischen", "duden zwischen %d %d %s" % (xk, yk, ekl), sd + p_scalar("wie viel Prozent der Zahlen aus l zwischen %s und %s sind" % (X, Y)), show_raw)
+    addB("absoluteHaeufigkeit", "duden absoluteHaeufigkeit %s %d" % (ekl, xk), sd + p_scalar("die absolute Häufigkeit von %s in l" % X), show_raw)
+    addB("relativeHaeufigkeit", "duden relativeHaeufigkeit %s %d" % (ekl, xk), sd + p_scalar("die relative Häufigkeit von %s in l" % X) +
+         p_scalar("wie viel Prozent der Zahlen aus l gleich %s sind" % X), lambda v: show_raw(v) * 2)
+    if True:
+        addB("mindestens", "duden mindestens %d %s" % (xk, ekl), sd + p_scalar("wie viel Prozent der Zahlen aus l mindestens %s sind" % X), show_raw)
+        addB("hoechstens", "duden hoechstens %d %s" % (xk, ekl), sd + p_scalar("wie viel Prozent der Zahlen aus l höchstens %s sind" % X), show_raw)
+    addB("summeK", "duden summeK %s" % ekl, sd + p_scalar("die Summe aller zahlen aus l") + K.p_list("l"), show_raw, same)
+    addB("mittelwert", "duden mittelwert %s" % ekl, sd + p_scalar("der Mittelwert von l") + p_scalar("das arithmetische Mittel von l"), lambda v: show_raw(v) * 2)
+    addB("median", "duden median %s" % eks, sd + p_scalar("der Median von s") + p_scalar("der Zentralwert von s"), lambda v: show_raw(v) * 2)
+    addB("modalwert", "duden modalwert %s" % ekl, sd + "Die Kommazahlen Liste r ist der Modalwert von l.\n" + K.p_list("r") + K.p_list("l"), show_rats, same)
+    for pq in (2, 4, 6, 1, 3):
+        npx = n * pq
+        if 0 < npx < 8 * n and not (npx % 8 == 0 and npx // 8 >= n):
+            addB("quantil", "duden quantil %s %d" % (eks, pq), sd + p_scalar("das %s-Quantil von s" % lit_komma(pq).strip("()")), show_raw)
+    k2 = [kpool[rng.below(len(kpool))] for _ in range(n)]
+    # (only lists whose mean is a dyadic rational: otherwise the library's intermediate mean is already rounded)
+    if n >= 2 and (n in (2, 4, 8) or sum(kl) % n == 0):
+        addB("varianz", "duden varianz %s" % ekl, sd + p_scalar("die Varianz von l"), show_raw)
+        addB("standardabweichung", "duden standardabweichung %s" % ekl, sd + p_scalar("die Standardabweichung von l"), show_raw)
+    if n >= 2 and (n in (2, 4, 8) or (sum(kl) % n == 0 and sum(k2) % n == 0)):
+        addB("kovarianz", "duden kovarianz %s %s" % (ekl, enc_ints(k2)), sd + "Die Kommazahlen Liste o ist %s.\n" % K.lit_list(k2) + p_scalar("die empirische Kovarianz von l und o"), show_raw)
+    addB("spannweite", "duden spannweite %s" % ekl, sd + p_scalar("die Spannweite von l"), show_raw)
+    if n >= 2:
+        addB("interquartilabstand", "duden interquartilabstand %s" % eks, sd + p_scalar("der Interquartilabstand von s"), show_raw)
+
+
+ZPRED = [("istLeer", "ein leeres Zeichen"), ("istGross", "ein großer Buchstabe"), ("istKlein", "ein kleiner Buchstabe"), ("istLeerzeichen", "ein Leerzeichen"),
+         ("istZiffer", "eine Ziffer"), ("istKontroll", "ein Kontrollzeichen"), ("istLateinisch", "ein lateinischer Buchstabe"),
+         ("istLateinischOderZahl", "ein lateinischer Buchstabe oder eine Zahl"), ("istDeutsch", "ein deutscher Buchstabe"),
+         ("istDeutschOderZahl", "ein deutscher Buchstabe oder eine Zahl")]
+UMLAUTE = [196, 214, 220, 228, 246, 252, 223]
+
+
+def cases_once(add):
+    """tables that do not depend on the seed: every ASCII character and the German letters through Duden/Zeichen,
+    constants, documented examples"""
+    def addB(*a, **k):
+        add(*a, head="B", **k)
+    codes = list(range(0, 128)) + UMLAUTE
+    for name, phrase in ZPRED:
+        cs = list(codes)
+        lst = "Die Zahlen Liste codes ist eine Liste, die aus %s besteht.\n" % ", ".join(str(x) for x in cs)
+        neg = phrase.replace("ein ", "kein ", 1).replace("eine ", "keine ", 1) if "oder" not in phrase else "nicht " + phrase
+        src = lst + "Für jede Zahl i in codes, mache:\n\tDer Buchstabe b ist i als Buchstabe.\n\tWenn b %s ist, Schreibe \"1\".\n\tSonst Schreibe \"0\".\nSchreibe \"\" auf eine Zeile.\n" % phrase
+        src += "Für jede Zahl i in codes, mache:\n\tDer Buchstabe b ist i als Buchstabe.\n\tWenn b %s ist, Schreibe \"0\".\n\tSonst Schreibe \"1\".\nSchreibe \"\" auf eine Zeile.\n" % neg
+        addB("zeichen-" + name, "duden ztab %s %s" % (name, enc_ints(cs)), src, lambda v: (v + "\n") * 2)
+    for name, phrase, cs in (("gross", "als großer Buchstabe", list(range(0, 128)) + UMLAUTE[:-1]), ("klein", "als kleiner Buchstabe", codes)):
+        lst = "Die Zahlen Liste codes ist eine Liste, die aus %s besteht.\n" % ", ".join(str(x) for x in cs)
+        src = lst + "Schreibe \"[\".\nFür jede Zahl i in codes, mache:\n\tDer Buchstabe b ist i als Buchstabe.\n\tSchreibe ((b %s) als Zahl).\n\tSchreibe \",\".\nSchreibe \"]\" auf eine Zeile.\n" % phrase
+        addB("zeichen-" + name, "duden zmap %s %s" % (name, enc_ints(cs)), src, show_list)
+    src = "Schreibe \"[\".\nFür jede Zahl i von 0 bis 127, mache:\n\tSchreibe ((der ASCII Zeichen mit der Nummer i) als Zahl).\n\tSchreibe \",\".\nSchreibe \"]\" auf eine Zeile.\n"
+    addB("asciiZeichen", "duden leere -", src, lambda v: show_list(enc_ints(list(range(128)))))
+    for x, y in ((0x61, 0x62), (0x62, 0x61), (0x61, 0x61), (0x20, 0x7E), (0x41, 0x61), (0x7A, 0x30)):
+        cd = "Der Buchstabe x ist %d als Buchstabe.\nDer Buchstabe y ist %d als Buchstabe.\n" % (x, y)
+        addB("asciiGroesser", "duden asciiGroesser %d %d" % (x, y), cd + "Wenn der ASCII-Wert von x größer als y, Schreibe \"1\" auf eine Zeile.\nSonst Schreibe \"0\" auf eine Zeile.\n", show_raw)
+        addB("asciiKleiner", "duden asciiKleiner %d %d" % (x, y), cd + "Wenn der ASCII-Wert von x kleiner als y, Schreibe \"1\" auf eine Zeile.\nSonst Schreibe \"0\" auf eine Zeile.\n", show_raw)
+    consts = [("ein Leerzeichen", 32), ("eine neue Zeile", 10), ("ein Wagenrücklauf", 13), ("ein Tabulator", 9), ("ein Rückstrich", 92), ("ein Anfühungszeichen", 34), ("ein Apostroph", 39)]
+    addB("zeichen-konstanten", "duden leere -", "".join(p_scalar("%s als Zahl" % ph) for ph, _ in consts), lambda v: "".join("%d\n" % c for _, c in consts))
+    def show_frac(v):
+        from fractions import Fraction
+        n, d = v.split("/")
+        return "%.16g\n" % float(Fraction(int(n), int(d)))
+    for key, phrase in (("maxKommazahl", "der maximale Wert einer Kommazahl"), ("minKommazahl", "der minimale Wert einer Kommazahl"),
+                        ("epsilonPos", "der kleinste positive Wert einer Kommazahl"), ("epsilonNeg", "der kleinste negative Wert einer Kommazahl")):
+        addB("konstante-" + key, "duden konstante " + key, p_scalar(phrase), show_frac)
+    addB("maxZahl", "duden maxZahl", p_scalar("der maximale Wert einer Zahl"), show_raw)
+    addB("eins", "duden leere -", p_scalar("eins") + p_scalar("Eins"), lambda v: "1\n1\n")
+    add("leererText", "duden leere -", "Der Text t ist ein leerer Text.\nSchreibe \"<\".\nSchreibe t.\nSchreibe \">\" auf eine Zeile.\n", lambda v: "<>\n")
+    # documented examples
+    for a, b in (("Bar", "Bar"), ("Bar", "Bir"), ("Bar", "Bier"), ("Bar", "Ba"), ("kitten", "sitting"), ("", "abc"), ("abc", ""), ("", "")):
+        ac, bc = [ord(x) for x in a], [ord(x) for x in b]
+        add("levenshtein-doc", "duden levenshtein %s %s" % (enc_ints(ac), enc_ints(bc)), p_scalar("die Levenshtein-Distanz zwischen %s und %s" % (lit_text(ac), lit_text(bc))), show_raw)
+    for t in ("0", "12", "-5", "+7", "-", "+", "", "abc", "a1", "-a", "€1", "007", "-0", "9223372036854775807"):
+        tc = [ord(x) for x in t]
+        add("textIstZahl", "duden textIstZahl %s" % enc_ints(tc), "Der Text t ist %s.\n" % lit_text(tc) + p_bool("t in eine Zahl umgewandelt werden kann") +
+            p_bool("%s in eine Zahl umgewandelt werden kann" % lit_text(tc)) + p_bool("t nicht in eine Zahl umgewandelt werden kann"),
+            lambda v: show_bool(v) * 2 + show_bool("0" if v == "1" else "1"))
+    for t, u in (("abab", "ab"), ("abxxab", "ab"), ("xxxx", "ab"), ("aaaa", "aa"), ("ab", "ab"), ("a", "ab"),
+                 ("xabab", "ab"), ("a-b", "-b"), ("-bbbb", "bb"), ("ba--a--aaa", "a--"), ("aaaaa", "aa"), ("xaax", "aa")):
+        tc, uc = [ord(x) for x in t], [ord(x) for x in u]
+        add("anzahlNichtUeberlappend", "duden anzahlNichtUeberlappend %s %s" % (enc_ints(tc), enc_ints(uc)),
+            p_scalar("die Anzahl der nicht überlappenden Subtexte %s in %s" % (lit_text(uc), lit_text(tc))), show_raw)
+    # the word separators of the documentation, among them the characters 13 and 14
+    add("worte-14", "duden worte 97,14,98,32,99,13,100", "Der Text t ist \"a\" verkettet mit (14 als Buchstabe) verkettet mit \"b c\" verkettet mit (13 als Buchstabe) verkettet mit \"d\".\n" +
+        "Die Text Liste r ist die Worte in t.\n" + p_textlist("r"), show_textlist)
+    add("spalteMenge-doc", "duden spalteMenge 72,97,108,108,111,10,13,87,101,108,116,10,33 10,13",
+        "Die Text Liste r ist \"Hallo\\n\\rWelt\\n!\" anhand der Spaltmenge \"\\n\\r\" gespalten.\n" + p_textlist("r"), show_textlist)
+    K = KINDS["K"]
+    for l in ([8, 24], [8, 16, 24], [0, 0, 32, 32, 16], [16, 16, 16], [8, 8, 8, 16, 24, 24, 24, 32, 40, 40]):
+        sd = "Die Kommazahlen Liste l ist %s.\n" % K.lit_list(l)
+        addB("varianz-fest", "duden varianz %s" % enc_ints(l), sd + p_scalar("die Varianz von l") + p_scalar("der Varianz von l"), lambda v: show_raw(v) * 2)
+        addB("standardabweichung-fest", "duden standardabweichung %s" % enc_ints(l), sd + p_scalar("die Standardabweichung von l"), show_raw)
+
+
+    for l1, l2 in (([8, 16, 24], [16, 32, 48]), ([8, 16, 24], [48, 32, 16]), ([0, 0, 32, 32, 16], [0, 32, 0, 32, 16]), ([0, 0, 32, 32, 16], [0, 0, 32, 32, 16])):
+        sd = "Die Kommazahlen Liste l ist %s.\nDie Kommazahlen Liste o ist %s.\n" % (K.lit_list(l1), K.lit_list(l2))
+        e12 = (enc_ints(l1), enc_ints(l2))
+        addB("kovarianz-fest", "duden kovarianz %s %s" % e12, sd + p_scalar("die empirische Kovarianz von l und o"), show_raw)
+        addB("korrelation-fest", "duden korrelation %s %s" % e12, sd + p_scalar("der empirische Korrelationskoeffizient von l und o"), show_raw)
+        addB("bestimmtheitsmass-fest", "duden bestimmtheitsmass %s %s" % e12, sd + p_scalar("der Bestimmtheitsmaß von l und o"), show_raw)
+
+
+def cases_more(rng, it, add):
+    generic_list_cases(rng, add, KINDS["Z"], only_new=True)
+    generic_list_cases(rng, add, KINDS[["T", "B", "K", "W"][it % 4]])
+    text_cases(rng, add)
+    number_cases(rng, add)
+
+
 def cases(rng, per_op):
     """yields (op name, model request, DDP source printing the observation, decoder for the model's answer)"""
     out = []
 
-    def add(op, req, src, show, unchanged=None):
-        out.append((op, req, src, show, unchanged))
-    for _ in range(per_op):
+    def add(op, req, src, show, unchanged=None, head="A"):
+        out.append((op, req, src, show, unchanged, head))
+    cases_once(add)
+    for it in range(per_op):
+        cases_more(rng, it, add)
         l, o = gen_list(rng), gen_list(rng)
         e = [0, 2, 7, -1][rng.below(4)]
         L, O = lit_list(l), lit_list(o)
@@ -197,7 +722,8 @@ def cases(rng, per_op):
                 for j3 in sorted(set([i3, len(t3)])):
                     add("loescheBereichT", "duden loescheBereichT %s %d %d" % (enc_ints(t3), i3, j3),
                         T3 + "Lösche alle Elemente im Bereich von %d bis %d aus t.\nSchreibe t auf eine Zeile.\n" % (i3, j3), show_text)
-        for t4, u4 in (("aa", "a"), ("aaa", "aa"), ("abab", "ab"), ("xaab", "ab"), ("ab", "ab"), ("ab", "ba"), ("abcab", "ab"), ("a,b,,c", ","), ("ab--cd--", "--"), ("--ab", "--")):
+        for t4, u4 in (("aa", "a"), ("aaa", "aa"), ("abab", "ab"), ("xaab", "ab"), ("ab", "ab"), ("ab", "ba"), ("abcab", "ab"), ("a,b,,c", ","), ("ab--cd--", "--"), ("--ab", "--"),
+                       ("a--b--c--d", "--"), ("ba--a--aaa", "a--"), ("xabab", "ab")):
             t4c, u4c = [ord(x) for x in t4], [ord(x) for x in u4]
             d4 = "Der Text t ist %s.\nDer Text u ist %s.\n" % (lit_text(t4c), lit_text(u4c))
             add("finde", "duden finde %s %s" % (enc_ints(t4c), enc_ints(u4c)), d4 + "Die Zahlen Liste r ist alle Indizes vom Subtext u in t.\n" + p_list("r"), show_list)
@@ -231,28 +757,30 @@ def check(res, tier):
     quick = tier == "quick"
     cs = cases(rng, 8 if quick else 80)
     answers = corr.run_lines(model, [c[1] for c in cs])
-    # several observations per program: each case in its own block scope
+    # several observations per program: each case in its own block scope; one program imports one set of modules
     progs, groups = [], []
-    per = 12
-    for i in range(0, len(cs), per):
-        grp = cs[i:i + per]
-        src = HEAD
-        for c in grp:
-            src += "Wenn wahr, dann:\n" + "".join("\t" + ln + "\n" for ln in c[2].rstrip("\n").split("\n")) + 'Schreibe "#" auf eine Zeile.\n'
-        progs.append(src)
-        groups.append(grp)
+    per = 25
+    for hk in sorted(HEADS):
+        sel = [(c, a) for c, a in zip(cs, answers) if c[5] == hk]
+        for i in range(0, len(sel), per):
+            grp = sel[i:i + per]
+            src = HEADS[hk]
+            for c, _ in grp:
+                src += "Wenn wahr, dann:\n" + "".join("\t" + ln + "\n" for ln in c[2].rstrip("\n").split("\n")) + 'Schreibe "#" auf eine Zeile.\n'
+            progs.append(src)
+            groups.append(grp)
     cfgs = [pipeline.Config(opt=1)] if quick else [pipeline.Config(opt=0), pipeline.Config(opt=2), pipeline.Config(opt=1, asan=True)]
     outs = pipeline.farm(ddp, [({"main.ddp": s}, cfg, {"timeout": 20}) for s in progs for cfg in cfgs])
     st = Counter()
     k = 0
-    ai = 0
     for src, grp in zip(progs, groups):
         exp_parts = []
-        for c in grp:
-            a = answers[ai]
-            ai += 1
-            if a in ("domain", "bad-request"):
+        for c, a in grp:
+            if a == "bad-request":
+                res.violation("duden-model:%s" % c[0], "the model does not understand the request %r" % c[1], {"model_request": c[1]}, has_input=False)
+            if a in ("domain", "bad-request", "inexact"):
                 exp_parts.append(None)
+                st["skipped:" + a] += 1
             else:
                 exp_parts.append(c[3](a) + (c[4] or ""))
         for cfg in cfgs:
@@ -263,25 +791,30 @@ def check(res, tier):
             if r.cls != "ok":
                 if len(res.violations) < 5:
                     res.violation("duden-run:%s:%s" % (cfg.name(), hash(src) % 10 ** 8), "a program calling Duden functions on in-domain arguments ended as %s" % r.cls,
-                                  {"program": src, "config": cfg.name(), "implementation": r.as_dict(), "functions": [c[0] for c in grp]})
+                                  {"program": src, "config": cfg.name(), "implementation": r.as_dict(), "functions": [c[0] for c, _ in grp]})
                 continue
             got = r.stdout.split("#\n")
-            for c, want, g in zip(grp, exp_parts, got):
+            for (c, _), want, g in zip(grp, exp_parts, got):
                 st["op:" + c[0]] += 1
-                res.nontrivial(c[0] + ":" + str(len(c[1])))
                 if want is None:
-                    st["outside-domain"] += 1
                     continue
+                res.nontrivial(c[0] + ":" + str(len(c[1])))
                 if g != want and len(res.violations) < 6:
                     res.violation("duden:%s:%s" % (c[0], hash(c[1]) % 10 ** 8),
                                   "%s: the library prints %r, the documented meaning gives %r (%s)" % (c[0], g, want, c[1]),
-                                  {"program": HEAD + c[2], "expected_stdout": want, "observed": g, "model_request": c[1], "config": cfg.name()})
+                                  {"program": HEADS[c[5]] + c[2], "expected_stdout": want, "observed": g, "model_request": c[1], "config": cfg.name()})
     evalcorr.report_broken(res, broken)
     res.extra.update({"cases": len(cs), "programs": len(progs), "configs": [c.name() for c in cfgs], "statistics": dict(sorted(st.items()))})
-    res.rule = ("for each of ~45 call forms (Listen: anfügen, voranstellen, einfügen, löschen, Bereich löschen, füllen, Index, enthält, leer, "
-                "erste/letzte n, spiegeln, Summe, Produkt, elementweise, aufsteigend; Sortierung: sortiert / Sortiere; Texte: Trim x3 in "
-                "value and Referenz form, Anzahl, enthält, beginnt/endet, Index, Polster, Spalte, Verbinden, groß/klein, Hamming, "
-                "Vergleiche) generated arguments with lengths 0/1/2/3/5(7), duplicates, negative and large numbers, multi-byte characters: "
-                "printed result and printed value arguments afterwards against DDP.Duden")
-    res.assumptions += ["only arguments inside the documented domain are judged; case mapping is checked on ASCII only; Kommazahl functions and the "
-                        "remaining Duden modules (Mathe, Statistik, Zeichen, …) are not covered"]
+    res.rule = ("for each of ~300 call forms (Listen: anfügen, voranstellen, einfügen, Bereich einfügen, löschen, Bereich löschen, füllen, leeren, "
+                "Index, enthält, leer, erste/letzte n, spiegeln for Zahlen/Text/Buchstaben/Kommazahlen/Wahrheitswert lists in Referenz and value "
+                "form, Summe, Produkt, elementweise x5, auf-/absteigend, linear, aneinandergehängt, verketten; Sortierung: sortiert / Sortiere / "
+                "Tausche; Texte: Trim x3, Entferne vorne/hinten, Anzahl, enthält, beginnt/endet, Index, Polster, Spalte x3, Verbinden x4, "
+                "groß/klein, Buchstaben, Worte, Bytes, Hamming, Levenshtein, Vergleiche, Ist_Zahl; Zeichen: every class and both case mappings on "
+                "all ASCII characters and the German letters; Zahlen/Mathe: max/min/clamp, sign, trunc, floor, ceil, runden, Quadrat, gerade, ganz, "
+                "Fakultät, Teiler, ggT, kgV, Brüche, Hex; Statistik: höchste/kleinste, Häufigkeiten, Mittelwert, Median, Modalwert, Quantil, Varianz, "
+                "Standardabweichung, Spannweite, Interquartilabstand, Kovarianz, Korrelation) generated arguments with lengths 0/1/2/3/5(7), "
+                "duplicates, negative and large numbers, multi-byte characters: printed result and printed value arguments afterwards against DDP.Duden")
+    res.assumptions += ["only arguments inside the documented domain are judged; Kommazahl results only where the exact result is a dyadic rational "
+                        "with few digits (the model answers `inexact` otherwise); letter classes and case mapping on ASCII and Ä Ö Ü ä ö ü ß; "
+                        "the call forms on which the library contradicts its documentation are listed in C17_FINDINGS.md and not generated; "
+                        "trigonometric/logarithmic functions, Logspace and the remaining Duden modules are not covered"]
